@@ -191,7 +191,7 @@ def build(params, symbolic):
                 return "error spans overlap / are out of order: %r then %r" % (spans[-1], (s, t))
             prev_end = t
             spans.append((s, t))
-        if strat != "default":
+        if strat != "default" and mode != "lr":
             bump(stats, "recovered_custom")
             return True
         # trees
@@ -221,7 +221,7 @@ def build(params, symbolic):
                     return "character %d is covered %d times" % (i, cover[i])
                 if cover[i] == 0 and (twin or not (c in spec.ws)):
                     return "non-layout character at %d is in no leaf and no error span" % i
-        bump(stats, "recovered")
+        bump(stats, "recovered" if strat == "default" else "recovered_custom")
         return True
 
     h.stats = stats
